@@ -217,7 +217,8 @@ CloseViol ==
     \* NOTIFICATION": a connected state was left by the peer's own doing (leftAt), the remote end is still there, nothing
     \* was written -- the session was dropped silently (an exception that is not a Notify escaped, typically)
     \cup Chk("C10-session-dropped-without-notification",
-             (leftAt >= 0 /\ ~closing /\ ReplaceMark \notin mayFault) => notified)
+             \* (an end asked for by the operator -- teardown, neighbour removed -- is not "something received or a timer")
+             (leftAt >= 0 /\ ~closing /\ ReplaceMark \notin mayFault /\ tear = 0) => notified)
 CloseEff ==
     /\ open' = FALSE /\ leftAt' = -1 /\ inq' = <<>>
     /\ tear' = IF notified THEN 0 ELSE tear
